@@ -473,7 +473,9 @@ pub fn skin_spec(x: Excl) -> impl Strategy<Value = (SkinSpec, Vec<&'static str>)
 }
 
 pub fn anim_spec(x: Excl) -> impl Strategy<Value = (AnimSpec, Vec<&'static str>)> {
-    let track = || prop_oneof![3 => Just(None), 2 => (0u8..5).prop_map(Some)];
+    // key counts: mostly small; one in 25 tracks is longer than the crate's pre-allocation cap
+    // (`bounded_capacity` = 1024), placed at its boundary
+    let track = || prop_oneof![36 => Just(None), 24 => (0u16..5).prop_map(Some), 1 => prop_oneof![Just(1023u16), Just(1024), Just(1025), Just(1100), Just(2049)].prop_map(Some)];
     let bone = (u32x(), track(), track(), track(), seed())
         .prop_map(|(bone_id, t, r, s, seed)| AnimBoneSpec { bone_id, t, r, s, seed });
     let section = (u32x(), u32x(), u32x(), sized(bone, 5))
